@@ -179,6 +179,12 @@ Theorem duration_never_wraps : forall s,
   end.
 Proof. exact duration_never_wraps_l. Qed.
 
+(* Duration.String() of every int64 nanosecond count - every unit form (ns, µs, ms, s, m, h),
+   fractions with trailing zeros dropped, the minimum -2^63 included - parses back to it *)
+Theorem duration_roundtrip : forall z, (- Z.of_N two63 <= z < Z.of_N two63)%Z ->
+  parse_duration (dur_string z) = Ok z.
+Proof. exact duration_roundtrip_l. Qed.
+
 (* ---- floats: given strconv's print/parse round trip ---- *)
 Theorem float_roundtrip_given_strconv :
   forall (F64 F32 : Type) (parse_float : N -> str -> outcome F64) (overflow32 : F64 -> bool)
@@ -216,5 +222,6 @@ Print Assumptions set_roundtrip.
 Print Assumptions map_roundtrip.
 Print Assumptions mss_roundtrip.
 Print Assumptions duration_never_wraps.
+Print Assumptions duration_roundtrip.
 Print Assumptions bool_roundtrip.
 Print Assumptions float_roundtrip_given_strconv.
